@@ -485,6 +485,21 @@ def run_fselect(argv, cwd, home, tz="UTC", fake_epoch=None, fail_after=None, uid
             "panic": ("panicked at" in err_t) or status == 101 or (status is not None and status < 0 and not timed_out)}
 
 
+def extract_dbg(stderr, marker):
+    """The value printed by a `dbg!(..)` whose expression text is `marker` (purely syntactic: the indented block after it)."""
+    i = stderr.rfind(marker)          # (main prints the raw argument vector under the same name first)
+    if i < 0:
+        return ""
+    lines = stderr[i + len(marker):].split("\n")
+    out = [lines[0]]
+    for ln in lines[1:]:
+        if ln.startswith(" ") or ln in (")", "]", "}", "),"):
+            out.append(ln)
+        else:
+            break
+    return "\n".join(out)
+
+
 def split_list(out, ncols):
     """NUL separated `into list` output -> rows of ncols cells (strings)."""
     txt = out.decode("utf-8", "replace")
